@@ -213,7 +213,7 @@ def main():
                            "INS iterations 60 (nominal 3-10; most runs carry a 40-iteration cap), 30 for the runs without a cap (nominal 3-4; wall-clock watchdog 600 s), likelihood points 4e5 (nominal 1.5e3); wall-clock watchdog 150 s (nominal 2-6 s)"
     chk.assumptions += ["'rejected up front' = a configuration-type exception raised while zero sampler-attributed likelihood points had been evaluated",
                         "bounded progress replaces 'never loops forever': a budget overrun is a violation, a watchdog without overrun is inconclusive"]
-    chk.finish("every option value of the standard (130) and importance (64) option tables on its own (thorough: 2 seeds, plus ~600 random compatible pair/triple rows on 2- and "
+    chk.finish("every option value of the standard (144) and importance (71) option tables on its own (thorough: 2 seeds, plus ~600 random compatible pair/triple rows on 2- and "
                "3-parameter models) runs through FlowSampler(...).run(save=True) in its own bounded subprocess with logical step budgets; the outcome must be a configuration "
                "error before any sampler likelihood call, or a clean finish whose results satisfy the C05 oracle and are finite. Non-trivial = run that reached a verdict; "
                "distinct by (sampler, option case, seed). Plus every cell of the standard and importance configuration matrices of the run-level checks (a run that raises there is "
